@@ -80,12 +80,40 @@ class UseWalrusIf(SimpleCodemod, NameResolutionMixin):
     def _single_access(self, original_node: cst.IfExp) -> bool:
         match original_node.test:
             case cst.Name():
-                access = self.find_accesses(original_node.test)
+                name = original_node.test
             case cst.UnaryOperation():
-                access = self.find_accesses(original_node.test.expression)
+                name = original_node.test.expression
             case _:
-                access = self.find_accesses(original_node.test.left)
+                name = original_node.test.left
+        access = set(self.find_accesses(name))
+        # Reads from enclosed scopes (closures, comprehensions) also count
+        if scope := self.get_metadata(ScopeProvider, name, None):
+            for assignment in scope[name.value]:
+                access |= set(assignment.references)
         return len(access) == 1
+
+    def _parenthesize_if_needed(
+        self, expression: cst.BaseExpression
+    ) -> cst.BaseExpression:
+        """Operands of `not` and of comparisons bind tighter than most expressions"""
+        match expression:
+            case (
+                cst.Name()
+                | cst.Call()
+                | cst.Attribute()
+                | cst.Subscript()
+                | cst.BaseNumber()
+                | cst.BaseString()
+                | cst.List()
+                | cst.Dict()
+                | cst.Set()
+            ):
+                return expression
+        if expression.lpar:
+            return expression
+        return expression.with_changes(
+            lpar=[cst.LeftParen()], rpar=[cst.RightParen()]
+        )
 
     def on_visit(self, node: cst.CSTNode) -> Optional[bool]:
         if len(node.children) < 2:
@@ -153,11 +181,15 @@ class UseWalrusIf(SimpleCodemod, NameResolutionMixin):
                     return updated_node.with_changes(test=new_expression)
                 case cst.UnaryOperation():
                     return updated_node.with_changes(
-                        test=updated_node.test.with_changes(expression=new_expression)
+                        test=updated_node.test.with_changes(
+                            expression=self._parenthesize_if_needed(new_expression)
+                        )
                     )
                 case _:
                     return updated_node.with_changes(
-                        test=updated_node.test.with_changes(left=new_expression)
+                        test=updated_node.test.with_changes(
+                            left=self._parenthesize_if_needed(new_expression)
+                        )
                     )
 
         return original_node
